@@ -41,6 +41,28 @@ func Plan(prop, tier string) []Mode {
 	switch prop {
 	case "C01":
 		return []Mode{seq("seq", pick(4000, 400000), pick(250, 5000))}
+	case "C07":
+		return []Mode{seq("seq", pick(6000, 500000), pick(400, 5000))}
+	case "C08":
+		return []Mode{seq("seq", pick(449, 20049), pick(30, 400))}
+	case "C11":
+		return []Mode{seq("seq", pick(3625, 400625), pick(125, 5000))}
+	case "C12":
+		return []Mode{seq("seq", pick(281, 20081), pick(20, 400))}
+	case "C13":
+		return []Mode{seq("seq", pick(365, 30065), pick(25, 600))}
+	case "C14":
+		return []Mode{seq("seq", pick(2007, 300007), pick(130, 5000))}
+	case "C15":
+		return []Mode{seq("seq", pick(1008, 100008), pick(64, 2000))}
+	case "C16":
+		return []Mode{seq("seq", pick(10000, 1000000), pick(700, 20000))}
+	case "C20":
+		ms := []Mode{seq("seq", pick(928, 20528), pick(32, 500))}
+		if !q {
+			ms = append(ms, seq("full32", 256, 4))
+		}
+		return ms
 	case "C02":
 		return []Mode{seq("seq", pick(600, 40000), pick(40, 500))}
 	}
